@@ -210,6 +210,7 @@ type Monitor struct {
 	LinkExch    map[[2]string]int
 	rvRoundSeen map[string]bool
 	RVRounds    int
+	rvSendCount map[string]int
 
 	Puppet bool
 	// set once requests overlapped in a puppet case: exact before/after reasoning is off from then on
@@ -221,6 +222,7 @@ func New() *Monitor {
 		start:        time.Now(),
 		LinkExch:     map[[2]string]int{},
 		rvRoundSeen:  map[string]bool{},
+		rvSendCount:  map[string]int{},
 		Nodes:        map[string]*NodeSh{},
 		Counts:       map[string]int{},
 		violSeen:     map[string]bool{},
@@ -1154,7 +1156,7 @@ func (m *Monitor) onSnapOpen(ev *Event) {
 		}
 	}
 	if !known {
-		m.violate(ev, []string{"C13", "C11"}, "snapshot-unknown", n.ID, "node %s: SnapshotFile() returned (index %d, term %d, %d bytes) which is no snapshot completed on that node", n.ID, ev.Idx, ev.Term, ev.Num)
+		m.violate(ev, []string{"C13", "C11", "C10"}, "snapshot-unknown", n.ID, "node %s: SnapshotFile() returned (index %d, term %d, %d bytes) which is no snapshot completed on that node", n.ID, ev.Idx, ev.Term, ev.Num)
 	}
 	if n.starting {
 		n.bootSnap = &Entry{Index: ev.Idx, Term: ev.Term}
@@ -1281,8 +1283,12 @@ func (m *Monitor) onSend(ev *Event) {
 	mi := &msgInfo{m: *mm, sendSeq: ev.Seq}
 	m.msgs[mm.ID] = mi
 	m.Counts["msg."+mm.Kind]++
-	if mm.Kind == "RV" {
+	if mm.Kind == "RV" && !mm.Dup {
+		// a round = one request to every other voter; the n-th request of the same kind and term to the same
+		// destination belongs to the n-th round (a node that keeps asking in the same term makes new rounds)
 		k := fmt.Sprintf("%s/%d/%d/%v", mm.From, mm.FromInc, mm.Term, mm.Prevote)
+		m.rvSendCount[k+"/"+mm.To]++
+		k = fmt.Sprintf("%s#%d", k, m.rvSendCount[k+"/"+mm.To])
 		if !m.rvRoundSeen[k] {
 			m.rvRoundSeen[k] = true
 			m.RVRounds++
